@@ -410,6 +410,76 @@ func init() {
 	dirFams = append(dirFams, dirFam{name: "ext-shapes", rank: 4, n: extShapeSize, gen: extShapeCase})
 }
 
+// ---- Tor service descriptor shapes ----
+
+type torShape struct {
+	label string
+	names []string
+	ext   func() *der.Node // nil = no extension
+}
+
+func torHash(uri, algOID string, hashLen int, i int) *der.Node {
+	hash := make([]byte, hashLen)
+	for k := range hash {
+		hash[k] = byte(k*7 + i)
+	}
+	return der.Seq(der.Str(der.TagUTF8, uri), der.Seq(der.OID(algOID)), der.Bits(hash, 0))
+}
+
+var torShapes = func() []torShape {
+	const sha256, sha384, sha512, sha1 = "2.16.840.1.101.3.4.2.1", "2.16.840.1.101.3.4.2.2", "2.16.840.1.101.3.4.2.3", "1.3.14.3.2.26"
+	ext := func(hs ...*der.Node) func() *der.Node {
+		return func() *der.Node { return der.MakeExt("2.23.140.1.31", false, der.Seq(hs...)) }
+	}
+	h, v2, v3 := c17DescH, c17V2, c17V3
+	return []torShape{
+		{"descriptor for the only onion name", []string{h}, ext(torHash("https://"+h, sha256, 32, 0))},
+		{"descriptor sha384", []string{h}, ext(torHash("https://"+h, sha384, 48, 0))},
+		{"descriptor sha512", []string{h}, ext(torHash("https://"+h, sha512, 64, 0))},
+		{"descriptor with too few hash bits", []string{h}, ext(torHash("https://"+h, sha256, 20, 0))},
+		{"descriptor with unknown hash algorithm", []string{h}, ext(torHash("https://"+h, sha1, 20, 0))},
+		{"descriptor with http scheme", []string{h}, ext(torHash("http://"+h, sha256, 32, 0))},
+		{"descriptor without host", []string{h}, ext(torHash("https:///path", sha256, 32, 0))},
+		{"descriptor with unparseable URI", []string{h}, ext(torHash("https://[::1", sha256, 32, 0))},
+		{"descriptor with path and port", []string{h}, ext(torHash("https://"+h+":8443/x", sha256, 32, 0))},
+		{"descriptor for upper-case host", []string{h}, ext(torHash("https://"+strings.ToUpper(h), sha256, 32, 0))},
+		{"two descriptors for one host", []string{h}, ext(torHash("https://"+h, sha256, 32, 0), torHash("https://"+h+"/b", sha256, 32, 1))},
+		{"descriptor for a name that is not a subject", []string{h}, ext(torHash("https://"+h, sha256, 32, 0), torHash("https://other2host77777.onion", sha256, 32, 1))},
+		{"second onion name without descriptor", []string{h, v2}, ext(torHash("https://"+h, sha256, 32, 0))},
+		{"descriptors for both onion names", []string{h, v2}, ext(torHash("https://"+h, sha256, 32, 0), torHash("https://"+v2, sha256, 32, 1))},
+		{"sub-label of the described host", []string{"www." + h, h}, ext(torHash("https://"+h, sha256, 32, 0))},
+		{"v3 name next to a described v2 name", []string{h, v3}, ext(torHash("https://"+h, sha256, 32, 0))},
+		{"v3 name only, with descriptor", []string{v3}, ext(torHash("https://"+v3, sha256, 32, 0))},
+		{"bare onion label", []string{h, "onion"}, ext(torHash("https://"+h, sha256, 32, 0))},
+		{"empty descriptor list", []string{h}, ext()},
+		{"onion v2 name without the extension", []string{h, "www.example.com", v2}, nil},
+		{"onion v3 name without the extension", []string{v3, "www.example.com", "www." + v3}, nil},
+		{"extension without any onion name", []string{"www.example.com"}, ext(torHash("https://"+h, sha256, 32, 0))},
+	}
+}()
+
+func torShapeSize(c *mon.Ctx) int { return len(torShapes) * 3 }
+
+func torShapeCase(c *mon.Ctx, k int) (*mon.Obj, string) {
+	sh := torShapes[k%len(torShapes)]
+	v := k / len(torShapes)
+	nb := []time.Time{gen.D(2016, 3, 1), gen.D(2019, 3, 1), gen.D(2024, 3, 1)}[v%3]
+	s := gen.TLSLeaf(nb, sh.names...)
+	s.Subject = gen.Name(gen.A(gen.OIDC, "US"), gen.A(gen.OIDO, "Example Org"), gen.A(gen.OIDCN, sh.names[0]))
+	if v != 2 {
+		s.ReplaceExt(gen.ExtPolicies(gen.OIDPolEV))
+	}
+	if sh.ext != nil {
+		s.Exts = append(s.Exts, sh.ext())
+	}
+	o, _ := mon.ParseObj(0, "gen/tor/"+sh.label, s.DER())
+	return o, fmt.Sprintf("%s, issued %d, EV=%v", sh.label, nb.Year(), v != 2)
+}
+
+func init() {
+	dirFams = append(dirFams, dirFam{name: "tor-descriptors", rank: 8, n: torShapeSize, gen: torShapeCase})
+}
+
 // ---- SCT-list family ----
 //
 // The embedded SCT list is a TLS-encoded blob inside two OCTET STRINGs; blind DER mutation cannot grow it. Lints
